@@ -15,6 +15,8 @@ package keyproof
 
 import (
 	"fmt"
+	"reflect"
+	"strings"
 	"testing"
 	"time"
 
@@ -61,33 +63,78 @@ func c17ForgeKeyProof(s *ValidKeyProofStructure, g zkproof.Group, P, Q, star, pv
 	list, c2 = s.qprimeIsPrime.commitmentsFromSecrets(g, list, &bm, &secrets)
 	list, qc := quasiSafePrimeProductBuildCommitments(list, Pprime, Qprime)
 	list, bc := s.basesValid.commitmentsFromSecrets(g, list, P, Q)
-	challenge := common.HashCommit(list, false)
-	proof := ValidKeyProof{
-		GroupPrime:         g.P,
-		PQNRel:             PQNRel.buildProof(g, challenge),
-		PProof:             s.p.buildProof(g, challenge, PSecret),
-		QProof:             s.q.buildProof(g, challenge, QSecret),
-		PprimeProof:        s.pprime.buildProof(g, challenge, PprimeSecret),
-		QprimeProof:        s.qprime.buildProof(g, challenge, QprimeSecret),
-		Challenge:          challenge,
-		PprimeIsPrimeProof: s.pprimeIsPrime.buildProof(g, challenge, c1, &secrets),
-		QprimeIsPrimeProof: s.qprimeIsPrime.buildProof(g, challenge, c2, &secrets),
-		BasesValidProof:    s.basesValid.buildProof(g, challenge, bc),
-	}
-	if r == nil {
-		proof.QSPPproof = quasiSafePrimeProductBuildProof(Pprime, Qprime, challenge, qc)
-	} else {
-		proof.QSPPproof = c17ForgeQSPP(r, Pprime, Qprime, challenge, qc)
-	}
-	if degenerate != nil {
-		switch who {
-		case "p":
-			proof.PProof.Commit = new(big.Int).Set(degenerate)
-		case "q":
-			proof.QProof.Commit = new(big.Int).Set(degenerate)
+	mk := func(challenge *big.Int) ValidKeyProof {
+		proof := ValidKeyProof{
+			GroupPrime:         g.P,
+			PQNRel:             PQNRel.buildProof(g, challenge),
+			PProof:             s.p.buildProof(g, challenge, PSecret),
+			QProof:             s.q.buildProof(g, challenge, QSecret),
+			PprimeProof:        s.pprime.buildProof(g, challenge, PprimeSecret),
+			QprimeProof:        s.qprime.buildProof(g, challenge, QprimeSecret),
+			Challenge:          challenge,
+			PprimeIsPrimeProof: s.pprimeIsPrime.buildProof(g, challenge, c1, &secrets),
+			QprimeIsPrimeProof: s.qprimeIsPrime.buildProof(g, challenge, c2, &secrets),
+			BasesValidProof:    s.basesValid.buildProof(g, challenge, bc),
 		}
+		if r == nil {
+			proof.QSPPproof = quasiSafePrimeProductBuildProof(Pprime, Qprime, challenge, qc)
+		} else {
+			proof.QSPPproof = c17ForgeQSPP(r, Pprime, Qprime, challenge, qc)
+		}
+		if degenerate != nil {
+			switch who {
+			case "p":
+				proof.PProof.Commit = new(big.Int).Set(degenerate)
+			case "q":
+				proof.QProof.Commit = new(big.Int).Set(degenerate)
+			}
+		}
+		return proof
 	}
-	return proof
+	challenge := common.HashCommit(list, false)
+	if c17Alter == nil {
+		return mk(challenge)
+	}
+	// an alteration that the prover makes BEFORE the challenge is fixed: it alters the proof built for a
+	// first challenge, hashes what the verifier will reconstruct from that (entries that do not depend on
+	// the altered part are the commitments made from the secrets, whatever the challenge), and builds the
+	// proof again for the challenge so obtained
+	p0 := mk(challenge)
+	c17Alter(&p0)
+	chal1 := common.HashCommit(c17VerifierList(s, p0), false)
+	p1 := mk(chal1)
+	c17Alter(&p1)
+	return p1
+}
+
+// c17Alter: see c17ForgeKeyProof.
+var c17Alter func(p *ValidKeyProof)
+
+// c17VerifierList rebuilds the commitment list the way ValidKeyProofStructure.VerifyProof does.
+func c17VerifierList(s *ValidKeyProofStructure, proof ValidKeyProof) []*big.Int {
+	g, _ := zkproof.BuildGroup(proof.GroupPrime)
+	proof.PProof.setName("p")
+	proof.QProof.setName("q")
+	proof.PprimeProof.setName("pprime")
+	proof.QprimeProof.setName("qprime")
+	proof.PQNRel.setName("pqnrel")
+	bases := zkproof.NewBaseMerge(&g, &proof.PProof, &proof.QProof, &proof.PprimeProof, &proof.QprimeProof)
+	proofs := zkproof.NewProofMerge(&proof.PProof, &proof.QProof, &proof.PprimeProof, &proof.QprimeProof, &proof.PQNRel)
+	var list []*big.Int
+	list = s.pprime.commitmentsFromProof(g, list, proof.Challenge, proof.PprimeProof)
+	list = s.qprime.commitmentsFromProof(g, list, proof.Challenge, proof.QprimeProof)
+	list = s.p.commitmentsFromProof(g, list, proof.Challenge, proof.PProof)
+	list = s.q.commitmentsFromProof(g, list, proof.Challenge, proof.QProof)
+	list = append(list, proof.GroupPrime)
+	list = append(list, s.n)
+	list = s.pPprimeRel.CommitmentsFromProof(g, list, proof.Challenge, &bases, &proofs)
+	list = s.qQprimeRel.CommitmentsFromProof(g, list, proof.Challenge, &bases, &proofs)
+	list = s.pQNRel.CommitmentsFromProof(g, list, proof.Challenge, &bases, &proofs)
+	list = s.pprimeIsPrime.commitmentsFromProof(g, list, proof.Challenge, &bases, &proofs, proof.PprimeIsPrimeProof)
+	list = s.qprimeIsPrime.commitmentsFromProof(g, list, proof.Challenge, &bases, &proofs, proof.QprimeIsPrimeProof)
+	list = quasiSafePrimeProductExtractCommitments(list, proof.QSPPproof)
+	list = s.basesValid.commitmentsFromProof(g, list, proof.Challenge, proof.BasesValidProof)
+	return list
 }
 
 func TestVerifC17Forgery(t *testing.T) {
@@ -269,4 +316,101 @@ func c17ForgeQSPP(r, Pprime, Qprime, challenge *big.Int, commit quasiSafePrimePr
 	}
 	proof.ASPPproof = ap
 	return proof
+}
+
+// TestVerifC17ZeroCommitments: a good key, the faithful replica of the prover, and ONE Pedersen commitment
+// somewhere inside the proof - in the prime proofs, in the bases-valid proof - replaced by 0 or the group
+// prime before the challenge is fixed (everything that depends on it then reconstructs to 0 whatever the
+// responses are; the challenge is computed over exactly that).  Such a proof must be refused wherever
+// the commitment sits: statements about the committed value are no longer checked.
+func TestVerifC17ZeroCommitments(t *testing.T) {
+	r := vkit.Start(t, "C17", "zero-commitments-anywhere", 400*time.Second, 1500*time.Second)
+	defer r.Finish()
+	r.Rule = "toy key (48-bit safe primes), replica of BuildProof; commitment leaves (fields named Commit) of PprimeIsPrimeProof, QprimeIsPrimeProof and BasesValidProof: first, middle and last of each (thorough: every 7th) x value {0, group prime}; alteration made before the challenge is fixed, challenge = hash of what the verifier reconstructs, proof rebuilt for it; non-trivial = distinct (leaf, value); oracle: control (no alteration) accepted; every altered proof rejected"
+	common.VerifSeedCPRNG([32]byte{17, 9})
+	rd := c17Seeded("zero-anywhere")
+	var P, Q *big.Int
+	for {
+		P, Q = c17SafePrime(rd, 48), c17SafePrime(rd, 48)
+		if P.Cmp(Q) != 0 && CanProve(new(big.Int).Rsh(P, 1), new(big.Int).Rsh(Q, 1)) {
+			break
+		}
+	}
+	N := new(big.Int).Mul(P, Q)
+	s := NewValidKeyProofStructure(N, []*big.Int{big.NewInt(36), big.NewInt(49)})
+	g, _ := zkproof.BuildGroup(findSafePrime(N.BitLen() + 2*rangeProofEpsilon + 10))
+	c17Alter = nil
+	control := c17ForgeKeyProof(&s, g, P, Q, new(big.Int).Rsh(P, 1), P, nil, "", nil)
+	if !s.VerifyProof(control) {
+		r.HarnessError("the replica of BuildProof does not produce an accepted proof for a good key")
+		return
+	}
+	var leaves []c17Leaf
+	c17Leaves(reflect.ValueOf(&control).Elem(), "", &leaves)
+	groups := map[string][]string{}
+	var order []string
+	for _, lf := range leaves {
+		if !strings.HasSuffix(lf.path, ".Commit") {
+			continue
+		}
+		for _, top := range []string{".PprimeIsPrimeProof", ".QprimeIsPrimeProof", ".BasesValidProof"} {
+			if strings.HasPrefix(lf.path, top) {
+				if groups[top] == nil {
+					order = append(order, top)
+				}
+				groups[top] = append(groups[top], lf.path)
+			}
+		}
+	}
+	var picks []string
+	for _, top := range order {
+		l := groups[top]
+		if vkit.Thorough() {
+			for i := 0; i < len(l); i += 7 {
+				picks = append(picks, l[i])
+			}
+		} else {
+			picks = append(picks, l[0], l[len(l)/2], l[len(l)-1])
+		}
+	}
+	r.Bounds["commitment_leaves"] = len(leaves)
+	r.Bounds["leaves_attacked"] = len(picks)
+	defer func() { c17Alter = nil }()
+	for _, path := range picks {
+		for _, val := range []struct {
+			name string
+			v    *big.Int
+		}{{"0", big.NewInt(0)}, {"group prime", g.P}} {
+			if _, mine := r.Next(); !mine {
+				continue
+			}
+			if r.Expired() {
+				return
+			}
+			desc := fmt.Sprintf("commitment %s = %s", path, val.name)
+			r.Eval()
+			r.Nontrivial(desc)
+			c17Alter = func(p *ValidKeyProof) {
+				var ls []c17Leaf
+				c17Leaves(reflect.ValueOf(p).Elem(), "", &ls)
+				for _, lf := range ls {
+					if lf.path == path {
+						lf.set(new(big.Int).Set(val.v))
+					}
+				}
+			}
+			var forged ValidKeyProof
+			var ok bool
+			common.VerifSeedCPRNG([32]byte{17, 9, 1})
+			pan, _ := vkit.Guard(func() {
+				forged = c17ForgeKeyProof(&s, g, P, Q, new(big.Int).Rsh(P, 1), P, nil, "", nil)
+				ok = s.VerifyProof(forged)
+			})
+			c17Alter = nil
+			r.Outcome(fmt.Sprintf("zero-commitment:%s:panic=%v:accepted=%v", val.name, pan, ok))
+			if !pan && ok {
+				r.Violate("C17|proof-with-a-zero-commitment-accepted|"+strings.SplitN(strings.TrimPrefix(path, "."), ".", 2)[0], desc+": accepted - whatever is stated about the committed value is not checked any more", desc)
+			}
+		}
+	}
 }
